@@ -27,6 +27,7 @@ from ..ref import meta as rmeta
 from ..ref import smf
 
 ID = 'C17'
+ANCHORS = ['mido.midifiles.meta', 'mido.midifiles.midifiles']
 LEVEL = 'fault_enumeration'
 RULE = ('charsets x texts (code points the charset round-trips in plain Python, incl. '
         'multi-byte forms) in all eight text-carrying meta types; faults enumerated per file: '
